@@ -1,0 +1,25 @@
+//go:build verif
+
+// Contracts for the deductive checks under /verif (comment-only; no code).
+
+package tar
+
+// ---- C38: metadata of an object outside the target is never changed ---------------------------
+// Mode and modification time of a directory are applied after its content has been extracted. By
+// then a later entry of the archive may have replaced the directory by a symbolic link (the last
+// path element is never checked, it is removed and re-created): chmod follows links, so a deferred
+// update must look at what is at the path now and touch it only if it is still a directory.
+//@ func iface io/fs.FileInfo.IsDir
+//@ func ext os.Lstat
+//@ func ext github.com/ipfs/boxo/files.UpdateMetaUnix
+//@ func (*Extractor).deferUpdate
+//@   prop C38
+//@   arith int-assumed
+//@   requires te != nil
+//@   modifies all
+//@   site[never_updates_metadata_unchecked] call:UpdateMetaUnix : false
+//@ func (*Extractor).Extract$1
+//@   prop C38
+//@   arith int-assumed
+//@   modifies all
+//@   site[never_updates_metadata_unchecked] call:UpdateMetaUnix : false
